@@ -1470,7 +1470,7 @@ func runRace(c raceCase, yieldSeed int64) map[int]string {
 			for j, f := range o.froms {
 				froms[j] = sharing.ID(f)
 			}
-			ctx, cancel := context.WithTimeout(context.Background(), 20*time.Second)
+			ctx, cancel := context.WithTimeout(context.Background(), 120*time.Second)
 			defer cancel()
 			res, err := v.ReceiveFrom(ctx, o.cid, froms...)
 			if err != nil && errors.Is(err, context.DeadlineExceeded) {
@@ -1647,8 +1647,8 @@ func body(t *testing.T, a vh.Args) {
 		nRandom, nTwo, nEcho = 20000, 4000, 1500
 	}
 	if a.Search {
-		cases = genRandom(a.Seed, 30000, true)
-		nTwo, nEcho = 0, 0
+		cases = append(genWindow(), genRandom(a.Seed, 15000, true)...)
+		nTwo, nEcho = 0, 1000
 	} else {
 		cases = append(cases, genRandom(a.Seed, nRandom, false)...)
 		cases = append(cases, genTwoReceivers(a.Seed, nTwo)...)
